@@ -125,6 +125,9 @@ package task
 //@   loop 6 invariant tok == 0 && !anyInternal && nVetted == len(calls)                                     [C13]
 //@   site (*Executor).RunTask#0 requires !anyInternal && nVetted == len(calls)                              [C13]
 //@   site (*Group).Go#0 requires !anyInternal && nVetted == len(calls)                                      [C13]
+// the tasks started with --parallel are ALL awaited before Run returns (the group's Wait): their deferred commands
+// have run by then, whichever task failed first
+//@   site (*Group).Wait#0 requires nVetted == len(calls)                                                    [C14,C02,C03]
 //@   site (*Executor).watchTasks#0 requires !anyInternal && nVetted == len(calls)                           [C13]
 //@   ensures anyInternal ==> result != nil && dyn(result) == type(*errors.TaskInternalError)                [C13]
 // C03: what fails the invocation is the error of the task that failed, itself - the first one when tasks run in
@@ -436,6 +439,9 @@ package task
 //@ callers $FSWRITERS : (*Executor).mkdir InitTaskfile release.* task.run fingerprint.(*ChecksumChecker).IsUpToDate fingerprint.(*ChecksumChecker).OnError fingerprint.(*TimestampChecker).IsUpToDate fingerprint.(*TimestampChecker).OnError taskfile.(*CacheNode).* ast.(*TaskfileGraph).Visualize   [C12,C04]
 //@ callers execext.RunCommand : (*Executor).runCommand (*Compiler).HandleDynamicVar (*Executor).areTaskPreconditionsMet fingerprint.(*StatusChecker).IsUpToDate   [C12]
 //@ callers (*Executor).mkdir : (*Executor).RunTask   [C12]
+// a checker of sources is made (and so its dry flag decided) only where the flag is under contract: the run path
+// and the clean-up after a failure take the executor's --dry, the queries are always dry
+//@ callers fingerprint.NewSourcesChecker fingerprint.NewChecksumChecker fingerprint.NewTimestampChecker fingerprint.IsTaskUpToDate : (*Executor).statusOnError (*Executor).compiledTask (*Executor).RunTask (*Executor).Status (*Executor).ToEditorOutput fingerprint.IsTaskUpToDate fingerprint.NewSourcesChecker   [C12,C04]
 
 // ---- C04 / C12: where the fingerprint is consulted, the dry flag and the method are the executor's -----
 // fpTouched: the fingerprint of t may have been rewritten by this execution (the check ran and was not dry).
@@ -564,6 +570,9 @@ package task
 // task sees depend on which tasks were compiled before it, and fails here without any annotation of the new code.
 //@ state_fields Executor: executionHashes watchedDirs TaskSorter except NewExecutor *.ApplyToExecutor (*Executor).setup* (*Executor).getRootNode (*Executor).readTaskfile   [C11,C18,C07]
 //@ state_fields Compiler: dynamicCache except (*Executor).setupCompiler                                           [C11,C18]
+// watch mode: the cache of dynamic variables is dropped by the event loop itself (watchTasks$2), for every event it
+// acts on, before any task is restarted - not by the per-task goroutines, not behind a filter
+//@ callers (*Compiler).ResetCache : (*Executor).watchTasks$2                                                       [C11]
 //@ state_fields globals: except init* experiments.Parse experiments.New                                           [C11,C18]
 
 // ---- C11: a dynamic variable is looked up, evaluated and recorded in ONE critical section, so that tasks
